@@ -105,7 +105,7 @@ def size_ok(o):
 
 OPS = ["new", "new", "svd", "add", "sub", "mul", "kron", "matmul", "transpose", "scalar", "clone", "to_ttm", "round", "sum", "getitem",
        "permute", "reshape", "cat", "pad", "diag", "mprod", "set_core", "reduce_dims", "dmrg", "hadamard", "amen_mm", "amen_mv", "solve", "divide",
-       "interp", "qtt", "dot", "norm", "factory", "saveload", "set_core_neg", "ctor_from_N", "ctor_from_N", "ctor_from_cores", "ctor_from_cores", "scribble", "scribble", "ctor_bad", "set_core_badrank", "iop", "set_core_rowonly", "set_core_colonly"]
+       "interp", "qtt", "dot", "norm", "factory", "saveload", "set_core_neg", "ctor_from_N", "ctor_from_N", "ctor_from_cores", "ctor_from_cores", "scribble", "scribble", "ctor_bad", "set_core_badrank", "iop", "set_core_rowonly", "set_core_colonly", "extreme_reads"]
 
 def do_step(w, op):
     """performs one call; returns the log entry (name) or None when the op is not applicable"""
@@ -351,16 +351,47 @@ def do_step(w, op):
         # malformed core lists (mixed 3-d / 4-d cores, broken chaining, boundary rank != 1) through TT(), rank1TT and random(): each must raise;
         # whatever is returned instead joins the pool and is held to the same well-formedness as every other object
         mk = lambda shp: torch.ones(shp, dtype=dt)
-        kind = rng.choice(["mixed", "mixed-rank1", "mixed-random", "chain", "boundary"])
-        try:
-            if kind == "mixed": o = torchtt.TT([mk((1, 2, 2)), mk((2, 3, 2, 2)), mk((2, 2, 1))])
-            elif kind == "mixed-rank1": o = torchtt.rank1TT([mk((3,)), mk((2, 2)), mk((2,))])
-            elif kind == "mixed-random": o = torchtt.random([4, (2, 3), 2], [1, 2, 2, 1], dtype=dt)
-            elif kind == "chain": o = torchtt.TT([mk((1, 2, 2)), mk((3, 2, 1))])
-            else: o = torchtt.TT([mk((2, 2, 2)), mk((2, 2, 1))])
-        except Exception:
-            return "ctor_bad(%s) raised" % kind, None
-        w.add(o, "KNew %s" % shlist_coq(o)); return "ctor_bad(%s) RETURNED an object" % kind, None
+        kinds = ["mixed", "mixed-rank1", "mixed-random", "chain", "boundary", "boundary-last", "boundary-last-ttm", "sub-train"]
+        out = []
+        for kind in (kinds if w.force else [rng.choice(kinds)]):       # scripted coverage walks try every kind
+            try:
+                if kind == "mixed": o = torchtt.TT([mk((1, 2, 2)), mk((2, 3, 2, 2)), mk((2, 2, 1))])
+                elif kind == "mixed-rank1": o = torchtt.rank1TT([mk((3,)), mk((2, 2)), mk((2,))])
+                elif kind == "mixed-random": o = torchtt.random([4, (2, 3), 2], [1, 2, 2, 1], dtype=dt)
+                elif kind == "chain": o = torchtt.TT([mk((1, 2, 2)), mk((3, 2, 1))])
+                elif kind == "boundary-last": o = torchtt.TT([mk((1, 2, 2)), mk((2, 2, 2))])
+                elif kind == "boundary-last-ttm": o = torchtt.TT([mk((1, 2, 3, 2)), mk((2, 2, 2, 3))])
+                elif kind == "sub-train":            # the leading cores of a well-formed object whose next rank is not 1
+                    src_ = rand_tt(rng, dt, d=3, N=[2, 3, 2]); src_ = src_ + src_
+                    o = torchtt.TT(src_.cores[:2])
+                else: o = torchtt.TT([mk((2, 2, 2)), mk((2, 2, 1))])
+            except Exception:
+                out.append("%s raised" % kind); continue
+            w.add(o, "KNew %s" % shlist_coq(o)); out.append("%s RETURNED an object" % kind)
+        return "ctor_bad(%s)" % ", ".join(out), None
+    if op == "extreme_reads":
+        # read-only calls on objects with finite entries of extreme magnitude (squares overflow / underflow) and on one-core objects: the cores afterwards are
+        # bit for bit the cores before (self-contained: these objects do not join the pool)
+        real = dt.to_real() if hasattr(dt, "to_real") else dt
+        big, tiny = (1e30, 1e-30) if real == torch.float32 else (1e200, 1e-200)
+        bad = []
+        for kind in (["one core, huge", "one operator core, huge", "huge then tiny", "tiny", "one core, ordinary"] if w.force else [rng.choice(["one core, huge", "one operator core, huge", "huge then tiny", "tiny", "one core, ordinary"])]):
+            if kind.startswith("one core"): shp = [(1, rng.choice([2, 3, 4]), 1)]
+            elif kind.startswith("one operator"): shp = [(1, 2, rng.choice([2, 3]), 1)]
+            else: shp = [(1, 2, 2), (2, 3, 1)]
+            cs = [torch.tensor(ttgen.rand_core(rng, sh_, dt.is_complex, lo=1, hi=3, density=1.0), dtype=dt) for sh_ in shp]
+            if "huge" in kind: cs[0] = cs[0] * big
+            if kind == "huge then tiny": cs[1] = cs[1] * tiny
+            if kind == "tiny": cs = [c * tiny for c in cs]
+            x = torchtt.TT(cs); keep = [c.clone() for c in x.cores]
+            for rd, f in (("norm()", lambda: x.norm()), ("norm(squared)", lambda: x.norm(True)), ("sum()", lambda: x.sum()), ("full()", lambda: x.full()), ("round()", lambda: x.round(1e-10)),
+                          ("x + x", lambda: x + x), ("x * 2", lambda: x * 2), ("x / 2", lambda: x / 2.0), ("-x", lambda: -x), ("clone()", lambda: x.clone())) + (() if x.is_ttm else (("dot(x, x)", lambda: torchtt.dot(x, x)),)):
+                try: f()
+                except Exception: pass
+                if len(x.cores) != len(keep) or any(a.shape != b.shape or not torch.equal(a, b) for a, b in zip(x.cores, keep)):
+                    bad.append("%s on an object with %s entries changes its cores" % (rd, kind)); break
+        for m in bad: w.fails.append(("intact", m, len(w.log)))
+        return "extreme_reads", None
     if op == "scribble":
         # the lists handed out by N / M / R / shape are the caller's: writing into them must not reach the object
         i = w.pick()
@@ -393,7 +424,11 @@ def do_step(w, op):
         g = rng.choice(cg) if cg and (w.force or rng.random() < 0.7) else None
         if op == "dmrg": o = A.fast_matvec(P[j], initial=P[g] if g is not None else None, nswp=4, eps=1e-8)
         else: o = torchtt.amen_mv(A, P[j], nswp=4, x0=P[g] if g is not None else None, eps=1e-8)
-        w.add(o, "KNew %s" % shlist_coq(o)); return "%s(%d,%d,guess=%s)" % (op, i, j, g), None
+        w.add(o, "KNew %s" % shlist_coq(o))
+        if w.force or rng.random() < 0.3:            # once more with the product just found as the guess (an exact guess: the result is still an object of its own)
+            o2 = A.fast_matvec(P[j], initial=o, nswp=4, eps=1e-8) if op == "dmrg" else torchtt.amen_mv(A, P[j], nswp=4, x0=o, eps=1e-8)
+            w.add(o2, "KNew %s" % shlist_coq(o2)); return "%s(%d,%d,guess=%s) and again with the result as guess" % (op, i, j, g), None
+        return "%s(%d,%d,guess=%s)" % (op, i, j, g), None
     if op == "hadamard":
         i = w.pick(lambda o: not o.is_ttm and size_ok(o) and o.cores[0].dtype == torch.float64 and len(o.N) >= 2)
         if i is None: return None
@@ -401,7 +436,11 @@ def do_step(w, op):
         c = [j for j, y in enumerate(P) if not y.is_ttm and list(y.N) == list(x.N) and y.cores[0].dtype == torch.float64]
         j, g = rng.choice(c), (rng.choice(c) if (w.force or rng.random() < 0.7) else None)
         o = torchtt.dmrg_hadamard(x, P[j], P[g] if g is not None else None, nswp=4, eps=1e-8)
-        w.add(o, "KNew %s" % shlist_coq(o)); return "hadamard(%d,%d,guess=%s)" % (i, j, g), None
+        w.add(o, "KNew %s" % shlist_coq(o))
+        if w.force or rng.random() < 0.3:
+            o2 = torchtt.dmrg_hadamard(x, P[j], o, nswp=4, eps=1e-8)
+            w.add(o2, "KNew %s" % shlist_coq(o2)); return "hadamard(%d,%d,guess=%s) and again with the result as guess" % (i, j, g), None
+        return "hadamard(%d,%d,guess=%s)" % (i, j, g), None
     if op == "amen_mm":
         i = w.pick(lambda o: o.is_ttm and size_ok(o) and o.cores[0].dtype == torch.float64 and len(o.N) >= 2)
         if i is None: return None
@@ -412,7 +451,11 @@ def do_step(w, op):
         cg = [g for g, y in enumerate(P) if y.is_ttm and Mof(y) == Mof(A) and list(y.N) == list(P[j].N) and y.cores[0].dtype == torch.float64]
         g = rng.choice(cg) if cg and (w.force or rng.random() < 0.7) else None
         o = torchtt.amen_mm(A, P[j], nswp=4, X0=P[g] if g is not None else None, eps=1e-8)
-        w.add(o, "KNew %s" % shlist_coq(o)); return "amen_mm(%d,%d,guess=%s)" % (i, j, g), None
+        w.add(o, "KNew %s" % shlist_coq(o))
+        if w.force or rng.random() < 0.3:
+            o2 = torchtt.amen_mm(A, P[j], nswp=4, X0=o, eps=1e-8)
+            w.add(o2, "KNew %s" % shlist_coq(o2)); return "amen_mm(%d,%d,guess=%s) and again with the result as guess" % (i, j, g), None
+        return "amen_mm(%d,%d,guess=%s)" % (i, j, g), None
     if op == "solve":
         i = w.pick(lambda o: not o.is_ttm and o.cores[0].dtype == torch.float64 and 2 <= len(o.N) <= 3 and all(n >= 2 for n in o.N) and size_ok(o))
         if i is None: return None
@@ -422,7 +465,11 @@ def do_step(w, op):
         cg = [g for g, y in enumerate(P) if not y.is_ttm and list(y.N) == list(b.N) and y.cores[0].dtype == torch.float64]
         g = rng.choice(cg) if (w.force or rng.random() < 0.7) else None
         o = torchtt.solvers.amen_solve(A, b, x0=P[g] if g is not None else None, nswp=6, eps=1e-6, verbose=False, use_cpp=False)
-        w.add(o, "KNew %s" % shlist_coq(o)); return "amen_solve(b=%d,guess=%s)" % (i, g), None
+        w.add(o, "KNew %s" % shlist_coq(o))
+        if w.force or rng.random() < 0.3:            # once more, the guess being the solution just found (nothing left to do: the result must still be an object of its own)
+            o2 = torchtt.solvers.amen_solve(A, b, x0=o, nswp=6, eps=1e-6, verbose=False, use_cpp=False)
+            w.add(o2, "KNew %s" % shlist_coq(o2)); return "amen_solve(b=%d,guess=%s) and again with the solution as guess" % (i, g), None
+        return "amen_solve(b=%d,guess=%s)" % (i, g), None
     if op == "divide":
         i = w.pick(lambda o: not o.is_ttm and o.cores[0].dtype == torch.float64 and len(o.N) >= 2 and size_ok(o) and max(o.R) <= 3)
         if i is None: return None
@@ -432,7 +479,11 @@ def do_step(w, op):
         c = [j for j, z in enumerate(P) if not z.is_ttm and list(z.N) == list(x.N) and z.cores[0].dtype == torch.float64]
         g = rng.choice(c) if rng.random() < 0.6 else None
         o = torchtt.elementwise_divide(x, y, nswp=4, starting_tensor=P[g] if g is not None else None, eps=1e-6)
-        w.add(o, "KNew %s" % shlist_coq(o)); return "divide(%d,guess=%s)" % (i, g), None
+        w.add(o, "KNew %s" % shlist_coq(o))
+        if w.force or rng.random() < 0.3:
+            o2 = torchtt.elementwise_divide(x, y, nswp=4, starting_tensor=o, eps=1e-6)
+            w.add(o2, "KNew %s" % shlist_coq(o2)); return "divide(%d,guess=%s) and again with the quotient as guess" % (i, g), None
+        return "divide(%d,guess=%s)" % (i, g), None
     if op == "interp":
         i = w.pick(lambda o: not o.is_ttm and o.cores[0].dtype == torch.float64 and len(o.N) >= 2 and all(n >= 2 for n in o.N) and size_ok(o))
         if i is None: return None
